@@ -28,7 +28,7 @@ use rustc_middle::ty::{self, Instance, TyCtxt, TypingEnv};
 use rustc_span::{ExpnKind, Span};
 use std::fmt::Write as _;
 
-const DRIVER_VERSION: &str = "factdrv-2";
+const DRIVER_VERSION: &str = "factdrv-3";
 
 // ---------------------------------------------------------------- JSON helpers
 fn js(s: &str) -> String {
@@ -727,6 +727,7 @@ fn mir_fact<'tcx>(tcx: TyCtxt<'tcx>, ldid: LocalDefId) -> String {
                 if let Some((cdid, cargs)) = func.const_fn_def() {
                     to = to.s("callee", &tcx.def_path_str(cdid)).b("local", cdid.is_local());
                     to = to.s("callee_full", &tcx.def_path_str_with_args(cdid, cargs));
+                    to = to.r("gargs", arr(cargs.iter().map(|a| js(&a.to_string())).collect()));
                     if let Some(r) = resolve(tcx, did, cdid, cargs) {
                         to = to.s("resolved", &r);
                         // is the resolved instance local?
@@ -807,6 +808,7 @@ fn mir_fact<'tcx>(tcx: TyCtxt<'tcx>, ldid: LocalDefId) -> String {
         fn visit_const_operand(&mut self, c: &mir::ConstOperand<'tcx>, _l: mir::Location) {
             if let ty::FnDef(d, a) = c.const_.ty().kind() {
                 let mut o = O::new().s("callee", &self.tcx.def_path_str(*d)).b("local", d.is_local());
+                o = o.r("gargs", arr(a.iter().map(|x| js(&x.to_string())).collect()));
                 let env = TypingEnv::post_analysis(self.tcx, self.owner);
                 if matches!(self.tcx.def_kind(*d), DefKind::Fn | DefKind::AssocFn) {
                     if let Ok(Some(inst)) = Instance::try_resolve(self.tcx, env, *d, a) {
